@@ -53,6 +53,51 @@ def check(run, prog, tier):
     run.rule("C10-I", "the look-up table of Franck-Condon matrices keeps shifts and matrices in step: every operation that changes "
                       "the order or length of one list is mirrored, with the same position, on the other", minimum=2)
     rule_I(run, prog)
+    run.rule("C10-J", "a stored Franck-Condon matrix is handed out for the shift it was computed for: the look-up table is searched "
+                      "for the shift itself (equality), never for a shift 'close to' it - two modes whose Huang-Rhys factors differ "
+                      "a little have different overlaps", minimum=2)
+    rule_J(run, prog)
+
+
+_TOLERANT = ("isclose", "allclose", "round", "around", "round_", "rint", "floor", "ceil", "trunc", "float32", "float16", "searchsorted",
+             "argmin", "nearest", "locate", "digitize", "isclose_")
+
+
+def rule_J(run, prog):
+    """'... follow the displaced-oscillator law ... for all Huang-Rhys factors': AggregateBase.fc_factor computes the shift
+    operator only when fcstorage.lookup(shift) says the shift is new, and takes matrix number fcstorage.index(shift)
+    otherwise.  Every method of fcstorage that takes the shift and reads the table of shifts compares the shift itself:
+    no call of a tolerant comparison or rounding on it, no ordering comparison (|a - b| < eps)."""
+    rid = "C10-J"
+    cls = prog.cls("quantarhei.qm.oscillators.ho.fcstorage")
+    n = 0
+    for nme, f in cls.methods.items():
+        if not isinstance(f.node, ast.FunctionDef) or "shift" not in [a.arg for a in f.node.args.args]:
+            continue
+        reads = [x for x in walk_no_nested(f.node) if isinstance(x, ast.Attribute) and isinstance(x.ctx, ast.Load)
+                 and norm(x) == "self._shifts"]
+        stores = any(isinstance(c, ast.Call) and isinstance(c.func, ast.Attribute) and c.func.attr in _LIST_MUT
+                     and norm(c.func.value) == "self._shifts" for c in walk_no_nested(f.node))
+        if not reads or stores:
+            continue
+        n += 1
+        prog.consulted.add(f.relpath)
+        bad = None
+        for c in walk_no_nested(f.node):
+            if isinstance(c, ast.Call) and (call_name(c) or "").split(".")[-1] in _TOLERANT:
+                bad = c
+                break
+            if isinstance(c, ast.Compare) and any(isinstance(o, (ast.Lt, ast.LtE, ast.Gt, ast.GtE)) for o in c.ops) \
+                    and any(isinstance(b_, ast.BinOp) and isinstance(b_.op, ast.Sub)
+                            and any(isinstance(x, ast.Name) and x.id == "shift" for x in ast.walk(b_)) for b_ in ast.walk(c)):
+                bad = c
+                break
+        run.obligation(rid, f.short, bad is None, key="exact-key",
+                       message="%s searches the table of shifts with `%s`: a shift that is only close to a stored one is answered with "
+                               "the matrix of the stored one, and the overlaps of that mode are those of another Huang-Rhys factor"
+                               % (f.short, norm(bad)[:60] if bad is not None else ""), loc=f.loc(bad if bad is not None else f.node))
+    if n < 2:
+        raise AnalysisError("C10-J: only %d searching methods of fcstorage found (lookup and index confirmed)" % n)
 
 
 _LIST_MUT = ("append", "pop", "insert", "remove", "clear", "extend", "sort", "reverse")
